@@ -12,6 +12,7 @@ package netpoll
 
 import (
 	"bufio"
+	"runtime"
 	"runtime/pprof"
 	"context"
 	"flag"
@@ -40,6 +41,19 @@ type vocConn struct {
 	got        int64
 	peerClosed bool
 	hupped     bool // no handler: the hang-up detached the operator, the user's Close does the rest
+	// hang-up queue scenarios: OnDisconnect of every connection counts its calls; with a gate armed it blocks there (a slow user
+	// callback), which delays every later entry of the same hang-up list
+	disc     int32
+	gate     chan struct{}
+	deferred bool // its hang-up was recorded in a handler call behind a blocked entry and has not been delivered yet
+}
+
+// vocSentinel: an operator of the harness whose (synthetic) hang-up is the LAST entry of one handler call's hang-up list:
+// when its OnHup runs, the goroutine of that call has been through every earlier entry
+type vocSentinel struct {
+	op   *FDOperator
+	fds  [2]int
+	done chan struct{}
 }
 
 // settle waits until the connection's handler task (if any) is idle and has consumed what arrived
@@ -92,6 +106,93 @@ type vocWorld struct {
 	slots   map[int32]bool
 	held    []*FDOperator // operators taken by "drain" and never used
 	mid     func()        // "dclose": runs once inside the next Inputs callback, i.e. while the poller holds that slot's token
+	sents   []*vocSentinel // hang-up goroutines that have not finished (an entry is blocked at a gate)
+}
+
+func (w *vocWorld) newSentinel() (*vocSentinel, error) {
+	fds, err := syscall.Socketpair(syscall.AF_UNIX, syscall.SOCK_STREAM, 0)
+	if err != nil {
+		return nil, err
+	}
+	st := &vocSentinel{fds: [2]int{fds[0], fds[1]}, done: make(chan struct{})}
+	st.op = &FDOperator{FD: fds[0], poll: w.p}
+	st.op.OnHup = func(p Poll) error { close(st.done); return nil }
+	if err := w.p.Control(st.op, PollReadable); err != nil {
+		syscall.Close(fds[0])
+		syscall.Close(fds[1])
+		return nil, err
+	}
+	return st, nil
+}
+
+func (st *vocSentinel) wait(d time.Duration) bool {
+	select {
+	case <-st.done:
+		syscall.Close(st.fds[0])
+		syscall.Close(st.fds[1])
+		return true
+	case <-time.After(d):
+		return false
+	}
+}
+
+// bystanders: a connection that was neither closed by its user nor hung up on by its peer must be untouched: active, registered,
+// its OnDisconnect never called (C10: nothing done on behalf of another connection closes or stalls it)
+func (w *vocWorld) disturbed() []string {
+	var bad []string
+	for _, vc := range w.conns {
+		if vc.closed || vc.peerClosed {
+			continue
+		}
+		switch {
+		case atomic.LoadInt32(&vc.disc) > 0:
+			bad = append(bad, fmt.Sprintf("conn%d (slot %d): OnDisconnect ran although its peer is alive", vc.id, vc.idx))
+		case !vc.c.IsActive():
+			bad = append(bad, fmt.Sprintf("conn%d (slot %d): closed although neither its user nor its peer closed it", vc.id, vc.idx))
+		case atomic.LoadInt32(&vc.op.detached) != 0:
+			bad = append(bad, fmt.Sprintf("conn%d (slot %d): deregistered from the poller although its peer is alive", vc.id, vc.idx))
+		}
+	}
+	return bad
+}
+
+// release opens every gate and waits until the delayed hang-up goroutines are through their lists
+func (w *vocWorld) release() (full []string, hang bool) {
+	for _, vc := range w.conns {
+		if vc.gate != nil {
+			close(vc.gate)
+			vc.gate = nil
+		}
+	}
+	for _, st := range w.sents {
+		if !st.wait(3 * time.Second) {
+			hang = true
+		}
+	}
+	w.sents = nil
+	for _, vc := range w.conns {
+		if !vc.deferred {
+			continue
+		}
+		vc.deferred = false
+		if vc.closed {
+			continue // its user closed it before the hang-up was delivered: the delivery found nothing to do
+		}
+		if vc.handler {
+			if !w.freed(vc) {
+				hang = true
+				continue
+			}
+			vc.closed = true
+			full = append(full, fmt.Sprint(vc.idx))
+		} else {
+			dl := time.Now().Add(2 * time.Second)
+			for !vc.c.isCloseBy(poller) && time.Now().Before(dl) {
+				time.Sleep(50 * time.Microsecond)
+			}
+		}
+	}
+	return full, hang
 }
 
 func (w *vocWorld) slotObs(idx int32) string {
@@ -135,6 +236,12 @@ func (w *vocWorld) open(handler bool) (string, string) {
 	c := &connection{}
 	vc := &vocConn{id: w.nextID, peer: fds[1], handler: handler}
 	opts := &options{}
+	opts.onDisconnect = func(ctx context.Context, conn Connection) {
+		atomic.AddInt32(&vc.disc, 1)
+		if g := vc.gate; g != nil {
+			<-g
+		}
+	}
 	if handler {
 		opts.onRequest = func(ctx context.Context, conn Connection) error {
 			r := conn.Reader()
@@ -368,6 +475,125 @@ func (w *vocWorld) exec(toks []string) (op string, reply string) {
 			return fmt.Sprintf("dclose %d slot=%d", vc.id, vc.idx), "BYSTANDER-FAIL bytes of a descriptor opened while connection " + fmt.Sprint(vc.id) + "'s event was being dispatched were consumed on behalf of that (closed) connection: " + verdict
 		}
 		return fmt.Sprintf("dclose %d slot=%d", vc.id, vc.idx), fmt.Sprintf("ok ran=%s probe=intact %s", ran, w.obs())
+	case "gate":
+		// the connection's OnDisconnect callback will block until "release" (a slow user callback on the hang-up goroutine)
+		vc := w.conns[atoi(toks[1])]
+		if vc.closed || vc.hupped || vc.handler || vc.gate != nil {
+			return op, "skip"
+		}
+		vc.gate = make(chan struct{})
+		return op, "ok " + w.obs()
+	case "dispatchall":
+		// the rest of the batch in ONE handler call, as Wait does it: one hang-up list, one hang-up goroutine for all of them
+		if !w.inBatch || w.bpos >= len(w.batch) {
+			return op, "skip"
+		}
+		evs := append([]epollevent(nil), w.batch[w.bpos:]...)
+		type item struct {
+			o       *FDOperator
+			vc      *vocConn
+			willRun bool
+		}
+		items := make([]item, len(evs))
+		for i := range evs {
+			o := *(**FDOperator)(unsafe.Pointer(&evs[i].data))
+			items[i] = item{o: o, willRun: atomic.LoadInt32(&o.state) == 1}
+			for _, c := range w.conns {
+				if !c.closed && !c.hupped && c.op == o {
+					items[i].vc = c
+				}
+			}
+		}
+		st, err := w.newSentinel()
+		if err != nil {
+			return op, "skip"
+		}
+		var sev epollevent
+		sev.events = syscall.EPOLLHUP
+		*(**FDOperator)(unsafe.Pointer(&sev.data)) = st.op
+		evs = append(evs, sev)
+		w.bpos = len(w.batch)
+		w.ran = w.ran[:0]
+		w.p.handler(evs)
+		runtime.KeepAlive(st)
+		ran := "none"
+		if len(w.ran) > 0 {
+			// one entry per event: an event with data and a hang-up calls Inputs again from readall
+			var l []string
+			for i, id := range w.ran {
+				if i == 0 || w.ran[i-1] != id {
+					l = append(l, fmt.Sprint(id))
+				}
+			}
+			ran = strings.Join(l, "+")
+		}
+		var notes []string
+		blocked := false
+		for _, it := range items {
+			vc, o := it.vc, it.o
+			tag := ""
+			if vc != nil && it.willRun {
+				if atomic.LoadInt32(&o.detached) > 0 || vc.c.status(closing) != 0 {
+					switch {
+					case blocked:
+						// behind a blocked entry of the same list: recorded, not delivered
+						vc.deferred, vc.hupped, tag = true, true, ":hupq"
+					case vc.gate != nil:
+						dl := time.Now().Add(2 * time.Second)
+						for atomic.LoadInt32(&vc.disc) == 0 && time.Now().Before(dl) {
+							time.Sleep(50 * time.Microsecond)
+						}
+						if atomic.LoadInt32(&vc.disc) == 0 {
+							return "dispatchall -", "hang"
+						}
+						blocked, vc.hupped, tag = true, true, ":hupg"
+					case vc.handler:
+						if !w.freed(vc) {
+							return "dispatchall -", "hang"
+						}
+						vc.closed, tag = true, ":hupf"
+					default:
+						dl := time.Now().Add(2 * time.Second)
+						for !vc.c.isCloseBy(poller) && time.Now().Before(dl) {
+							time.Sleep(50 * time.Microsecond)
+						}
+						time.Sleep(100 * time.Microsecond)
+						vc.hupped, tag = true, ":hupd"
+					}
+				} else {
+					vc.settle()
+				}
+			}
+			notes = append(notes, fmt.Sprintf("%d%s", o.index, tag))
+		}
+		if blocked {
+			w.sents = append(w.sents, st)
+		} else if !st.wait(3 * time.Second) {
+			return "dispatchall " + strings.Join(notes, ","), "hang"
+		}
+		return "dispatchall " + strings.Join(notes, ","), fmt.Sprintf("ok ran=%s %s", ran, w.obs())
+	case "release":
+		if len(w.sents) == 0 {
+			armed := false
+			for _, vc := range w.conns {
+				armed = armed || vc.gate != nil
+			}
+			if !armed {
+				return op, "skip"
+			}
+		}
+		full, hang := w.release()
+		l := strings.Join(full, ",")
+		if l == "" {
+			l = "-"
+		}
+		if hang {
+			return "release full=" + l, "hang"
+		}
+		if bad := w.disturbed(); len(bad) > 0 {
+			return "release full=" + l, "BYSTANDER-FAIL after the delayed hang-ups were delivered: " + strings.Join(bad, "; ")
+		}
+		return "release full=" + l, "ok " + w.obs()
 	case "endbatch":
 		if !w.inBatch || w.bpos < len(w.batch) {
 			return op, "skip"
@@ -427,6 +653,7 @@ func (w *vocWorld) exec(toks []string) (op string, reply string) {
 				bad = append(bad, fmt.Sprintf("conn%d got %d of %d", vc.id, have, vc.sent))
 			}
 		}
+		bad = append(bad, w.disturbed()...)
 		if len(bad) > 0 {
 			return op, "BYSTANDER-FAIL " + strings.Join(bad, "; ")
 		}
@@ -450,6 +677,7 @@ func vocNewWorld() (*vocWorld, func(), error) {
 	pollmanager = m
 	w := &vocWorld{p: p, slots: map[int32]bool{}}
 	return w, func() {
+		w.release()
 		for _, vc := range w.conns {
 			if !vc.closed {
 				vc.c.Close()
@@ -565,11 +793,11 @@ func VerifOpCacheMain(args []string) int {
 			// op lines carry annotations (slot=…, fetched indices): strip them for re-execution
 			t := strings.Fields(line)
 			switch t[0] {
-			case "open", "openh", "fetch", "endbatch", "check", "drain", "dclose":
+			case "open", "openh", "fetch", "endbatch", "check", "drain", "dclose", "dispatchall", "release":
 				t = t[:1]
 			case "dispatch":
 				t = t[:1]
-			case "close", "send", "hup":
+			case "close", "send", "hup", "gate":
 				t = t[:2]
 			case "stale":
 				t = t[:3]
@@ -590,7 +818,50 @@ func VerifOpCacheMain(args []string) int {
 		}
 		fmt.Fprintf(ow, "seq %d\n", s)
 		fmt.Fprintln(iw, "seq")
-		if *hazard {
+		if *hazard && r.Intn(3) == 0 {
+			// directed prelude around the hang-up queue: several peers hang up, all of it dispatched in ONE handler call with the first
+			// connection's OnDisconnect blocked (one hang-up list, one goroutine, stuck at its first entry); meanwhile users close some of
+			// the others, the batch ends, new connections take the freed slots; then the goroutine is let go
+			k := 2 + r.Intn(3)
+			emit(w, "open")
+			for i := 1; i < k; i++ {
+				if r.Intn(3) == 0 {
+					emit(w, "openh")
+				} else {
+					emit(w, "open")
+				}
+			}
+			if r.Intn(4) != 0 {
+				emit(w, "drain")
+			}
+			emit(w, "gate 0")
+			for i := 0; i < k; i++ {
+				if i < 2 || r.Intn(4) != 0 {
+					emit(w, fmt.Sprintf("hup %d", i))
+				} else {
+					emit(w, fmt.Sprintf("send %d", i))
+				}
+			}
+			emit(w, "fetch")
+			emit(w, "dispatchall")
+			for j := 1 + r.Intn(2); j > 0; j-- {
+				emit(w, fmt.Sprintf("close %d", 1+r.Intn(k-1)))
+			}
+			emit(w, "endbatch")
+			if r.Intn(2) == 0 {
+				emit(w, "fetch")
+				emit(w, "endbatch")
+			}
+			for j := 1 + r.Intn(2); j > 0; j-- {
+				emit(w, "open")
+			}
+			if r.Intn(2) == 0 {
+				emit(w, fmt.Sprintf("send %d", len(w.conns)-1))
+			}
+			if r.Intn(3) != 0 {
+				emit(w, "release")
+			}
+		} else if *hazard {
 			// directed prelude: k connections, allocation list used up, data for some of them fetched but not dispatched,
 			// one or two of those closed (or told to hang up), new connections opened inside the batch, then the batch is dispatched
 			k := 2 + r.Intn(3)
@@ -625,7 +896,7 @@ func VerifOpCacheMain(args []string) int {
 			var line string
 			nc := len(w.conns)
 			pick := func() int { return r.Intn(nc) }
-			switch k := r.Intn(21); {
+			switch k := r.Intn(24); {
 			case k == 20:
 				if r.Intn(2) == 0 {
 					continue
@@ -639,6 +910,12 @@ func VerifOpCacheMain(args []string) int {
 				if r.Intn(2) == 0 {
 					line = "openh"
 				}
+			case k == 21:
+				line = fmt.Sprintf("gate %d", pick())
+			case k == 22:
+				line = "release"
+			case k == 23:
+				line = fmt.Sprintf("hup %d", pick())
 			case k < 7:
 				vc := w.conns[pick()]
 				if vc.closed {
@@ -649,8 +926,11 @@ func VerifOpCacheMain(args []string) int {
 				line = "fetch"
 			case k < 14:
 				line = "dispatch"
-				if r.Intn(6) == 0 {
+				switch r.Intn(6) {
+				case 0:
 					line = "dclose"
+				case 1:
+					line = "dispatchall"
 				}
 			case k < 16:
 				line = "endbatch"
@@ -665,7 +945,8 @@ func VerifOpCacheMain(args []string) int {
 				break
 			}
 		}
-		// drain: finish the batch, deliver everything, check bystanders
+		// drain: let delayed hang-ups through, finish the batch, deliver everything, check bystanders
+		emit(w, "release")
 		for w.inBatch && w.bpos < len(w.batch) {
 			emit(w, "dispatch")
 		}
